@@ -160,6 +160,41 @@ func c07Check(r *vkit.Run, in c07Input) bool {
 	for _, e := range res.Entries {
 		byTS[e.TS] = e
 	}
+	// Labels a stage does not name are not touched by it. The model checks that for the labels it knows; the text of
+	// __error_details__ is the implementation's own, so it is compared with the implementation itself: after a last
+	// stage that is a drop or a label_format not naming it, every record carries exactly the __error_details__ it
+	// carries without that stage (stages whose own template can fail are exempt: they may write their own).
+	if n := len(in.Stages); n >= 2 {
+		last := c07S[in.Stages[n-1]]
+		names := false
+		switch x := last.s.(type) {
+		case *refmodel.Drop:
+			for _, it := range x.Items {
+				names = names || it.Label == refmodel.ErrorDetails
+			}
+		case *refmodel.LabelFormat:
+			for _, it := range x.Items {
+				names = names || it.Dst == refmodel.ErrorDetails || it.Src == refmodel.ErrorDetails
+			}
+		default:
+			names = true // keep removes what it does not name; the other stages are not about labels
+		}
+		if !names && !last.mayFail { // (a stage whose own template may fail may write its own details)
+			pq := &refmodel.LogQuery{Stages: q.Stages[:len(q.Stages)-1]}
+			prefix := evalLog(data, logqlengine.QuerierCapabilities{}, pq.Text(), -1)
+			r.Eval()
+			before := map[int64]string{}
+			for _, e := range prefix.Entries {
+				before[e.TS] = e.Labels[refmodel.ErrorDetails]
+			}
+			for _, e := range res.Entries {
+				if b, a := before[e.TS], e.Labels[refmodel.ErrorDetails]; a != b {
+					fail(fmt.Sprintf("record at %ds: __error_details__ is %q after the last stage and %q before it, and the stage does not name that label", e.TS/sec, a, b), a, b)
+					return false
+				}
+			}
+		}
+	}
 	changed := false
 	for i, w := range want {
 		g, ok := byTS[w.TS]
